@@ -1,11 +1,11 @@
 SPECIFICATION Spec
 CONSTANTS
   NW = 2
-  Family = "collect-quick"
-  PeerCounts = {1}
-  MaxChanges = 2
+  Family = "collect-full"
+  PeerCounts = {1, 2}
+  MaxChanges = 1
   Faithful = FALSE
-  ShareIdentical = TRUE
+  ShareIdentical = FALSE
   CachedDecide = TRUE
   AtomicReload = TRUE
 INVARIANTS TypeOK WorkersShare DestsIsolated DefsIsolated RegistryGoals WorkerGoals PeerCountCurrent
